@@ -158,7 +158,7 @@ def shimmed_names():
     return set(re.findall(r'^#define\s+(\w+)\(', open(hdr).read(), re.M))
 
 
-def weave_function(fn, path, src, edits, counter, census, loops=None, split_rmw=True):
+def weave_function(fn, path, src, edits, counter, census, loops=None, split_rmw=True, stub_calls=()):
     body = [c for c in fn.get('inner', []) if c.get('kind') == 'CompoundStmt']
     if not body:
         raise WeaveError('no body for %s' % fn.get('name'))
@@ -303,6 +303,14 @@ def weave_function(fn, path, src, edits, counter, census, loops=None, split_rmw=
                 stats['calls'] += 1
                 edits.append((r[0], 0, depth, PRE + '(verif_sync(%d), ' % s + POST))
                 edits.append((r[1], 1, -depth, PRE + ')' + POST))
+                if cname in stub_calls:
+                    # the callee is defined in this very file and is used by contract here: the call (not the definition) is
+                    # redirected to stub_<name> (VERIF_STUB in rt/verif_atomic_shim.h)
+                    if src[r[0]:r[0] + len(cname)] != cname:
+                        raise WeaveError('%s: call of %s is not spelled literally' % (name, cname))
+                    edits.append((r[0], 0, depth + 1, PRE + 'VERIF_STUB(' + POST))
+                    edits.append((r[0] + len(cname), 1, -(depth + 1), PRE + ')' + POST))
+                    stats.setdefault('stubbed_calls', []).append(cname)
         elif k == 'ReturnStmt':
             b = file_off(n['range']['begin'], path)
             if b is None or src[b:b + 6] != 'return':
@@ -431,7 +439,7 @@ def clang_ast(repo_file, parse_file, fn, cflags):
     return parse_objs(p.stdout)
 
 
-def weave_file(path, fns, cflags, parse_file=None, first_site=0, loops=None, split_rmw=True):
+def weave_file(path, fns, cflags, parse_file=None, first_site=0, loops=None, split_rmw=True, stub_calls=()):
     """returns (woven_text, census).  `path` is the file holding the function
     bodies; `parse_file` a .c file that includes it (for header inlines)."""
     src = open(path).read()
@@ -448,7 +456,8 @@ def weave_file(path, fns, cflags, parse_file=None, first_site=0, loops=None, spl
                     any(c.get('kind') == 'CompoundStmt' for c in o.get('inner', [])):
                 if file_off(o['range']['begin'], path) is None:
                     continue
-                weave_function(o, path, src, edits, counter, census, (loops or {}).get(fn), split_rmw)
+                weave_function(o, path, src, edits, counter, census, (loops or {}).get(fn), split_rmw,
+                               tuple(stub_calls.get(fn, ())) if isinstance(stub_calls, dict) else stub_calls)
                 found = True
                 break
         if not found:
